@@ -225,7 +225,7 @@ func runCtlScenario(w *ndWriter, seed int64, variant string, idx int) bool {
 	var slowNow time.Duration
 	cf := mkFilter(ctlFilter)
 	var realFilter filter.Filter = cf
-	if variant == "watch" || variant == "timing" || variant == "relist" {
+	if variant == "watch" || variant == "timing" || variant == "relist" || variant == "shutdown" {
 		realFilter = slowFilter(cf, &slowNow)
 	}
 	b := kcache.NewBuilder().Context(ctx).Log(newLog(pert)).Client(srv).Filter(tr.RegisterFilter(realFilter, ctlFilter))
@@ -408,6 +408,16 @@ func runCtlScenario(w *ndWriter, seed int64, variant string, idx int) bool {
 			time.Sleep(time.Duration(rng.Intn(20000)) * time.Microsecond)
 		}
 		how = []string{"close", "close3", "cancel", "close"}[rng.Intn(4)]
+		if rng.Intn(2) == 0 {
+			// shutdown in the middle of the traffic: the controller is busy applying watch events (slowed filter),
+			// more are queued behind, a relist may be due
+			s.hot = true
+			slowNow = time.Duration(300+rng.Intn(2500)) * time.Microsecond
+			for i := 5 + rng.Intn(25); i > 0; i-- {
+				s.mutate()
+			}
+			time.Sleep(time.Duration(rng.Intn(6000)) * time.Microsecond)
+		}
 		// API calls racing with the shutdown
 		go func() { hw_racer(s, root) }()
 	}
